@@ -38,11 +38,11 @@ QUICK = [
     ("tick3", 3, 1, 0, 1, 2, BOTH, '{"ss", "mm"}', '{"st", "ss"}'),
 ]
 THOROUGH = [
-    ("tick1-pend", 1, 2, 2, 2, 2, BOTH, '{"ss", "mm"}', '{"tt"}'),
-    ("tick1-3entries", 1, 3, 1, 2, 1, BOTH, '{"ss", "mm", "sm", "ms"}', '{"tt"}'),
-    ("tick2", 2, 1, 1, 2, 2, BOTH, '{"ss", "mm"}', ALLP),
-    ("tick2-dups", 2, 2, 0, 1, 2, BOTH, '{"ss", "mm", "sm"}', ALLP),
-    ("tick3", 3, 1, 0, 2, 2, BOTH, '{"ss", "mm"}', '{"tt", "ss", "ts"}'),
+    ("tick1-pend", 1, 2, 1, 2, 2, BOTH, '{"ss", "mm"}', '{"tt"}'),
+    ("tick1-3entries-mixed", 1, 3, 1, 2, 1, BOTH, '{"ss", "mm", "sm", "ms"}', '{"tt"}'),
+    ("tick2", 2, 1, 0, 2, 2, BOTH, '{"ss", "mm", "sm"}', ALLP),
+    ("tick2-dups", 2, 2, 0, 1, 2, BOTH, '{"ss", "mm"}', ALLP),
+    ("tick3", 3, 1, 0, 1, 2, BOTH, '{"ss", "mm"}', ALLP),
 ]
 
 
@@ -112,7 +112,7 @@ def _report(res, cases_by_id, viol, trace, where):
     by_case = {}
     for case, rule in viol:
         by_case.setdefault(case, set()).add(rule)
-    evs = _case_events(trace, list(by_case)[:40])
+    evs = _case_events(trace, sorted(by_case)[:3000])
     for case, rules in sorted(by_case.items()):
         c = cases_by_id(case)
         for rule in sorted(rules):
